@@ -850,6 +850,9 @@ fn check_remove_dir(dir_path: impl AsRef<Path>) -> Result<(), ChunkCacheError> {
 /// expects only the key portion of the file path, with the prefix not present.
 fn try_parse_key(file_name: &[u8]) -> Result<Key, ChunkCacheError> {
     let buf = BASE64_ENGINE.decode(file_name)?;
+    if buf.len() < size_of::<MerkleHash>() {
+        return Err(ChunkCacheError::parse("decoded buf is too short for a key directory name"));
+    }
     let hash = MerkleHash::from_slice(&buf[..size_of::<MerkleHash>()])?;
     let prefix = String::from(std::str::from_utf8(&buf[size_of::<MerkleHash>()..])?);
     Ok(Key { prefix, hash })
